@@ -5,7 +5,7 @@ import random
 
 import z3
 
-from harness.common import Ctx, byte_obligation, mi, read_scenario
+from harness.common import Ctx, byte_obligation, io_cases, mi, read_scenario
 from oracles.mem import SymMem
 from oracles import vhd as spec
 from symx import core, files, layouts, loader, stubs
@@ -95,10 +95,14 @@ def read_task(prop, cfg, tier, seed):
             ctx, E, vars_, entry="vhd", params=lambda mo: {}, call=lambda mo: ["_read", mi(mo, offset), mi(mo, length)],
             total=lambda mo: mi(mo, explen), g0=lambda mo: mi(mo, offset), spec_at=spec_at, unit=bs, rng=rng, maxlen=(lambda mo: mi(mo, length)) if cfg.get("tail") else None, j=j,
             prefer=[length <= 16 << 20], sizes=dict(img=lambda mo: mi(mo, fsize)))
+        ctx.scenario.wide = [offset >= 1 << 40] + ([vars_["table_offset"] >= 1 << 40] if kind == "dynamic" else [])
         obj = m.VHD(fh)
         res = obj._read(offset, length)
         sv = spec.guest_byte(offset + j, fsize, bs, mem, kind == "dynamic")
         bad = byte_obligation(res, j, explen, sv, extra=[obj.size != cur], maxlen=length if cfg.get("tail") else None)
+        if cfg.get("io"):
+            # two footer reads, the dynamic header, 4 bytes of BAT per touched block, the data
+            bad += io_cases(fh.reads, 1023 + 1024 + 4 * (N + 1) + length, 3 + 2 * (N + 1))
         if ctx.obligation(bad, "read differs from the guest-visible content"):
             ctx.witness()
 
